@@ -171,6 +171,11 @@ def catalogue(rng, target, others, schemas):
         if k and donors.get(k):
             d = gen.pick(rng, donors[k])
             ops.append(('but-other', lambda a=a, d=d: ('but-other', a.name, d, t.but(**{a.name: d}))))
+    if is_expr:
+        # copy-with-changes of the stored type alone (what cast() does internally)
+        for name in ('BOOL', 'NUMBER', 'STRING', 'PRIMITIVE', 'ARRAY', 'ANY'):
+            dt = DataType[name]
+            ops.append(('but-type', lambda dt=dt: ('but-other', 'data_type', dt, t.but(data_type=dt))))
     return ops
 
 
@@ -267,6 +272,18 @@ def run(ctx):
                                                            'shared': new.metadata is target.metadata}, feats)
                             return
                     o = ('ok', new)
+            if name == 'cast' and o[0] == 'ok' and o[1] is not target:
+                new = o[1]
+                fresh = hplapi.outcome(_fresh_construction, target, 'data_type', new.data_type)
+                ctx.count('cast_copies_judged')
+                if fresh[0] == 'ok' and not (new == fresh[1] and monitors.snapshot(new, with_meta=False) == monitors.snapshot(fresh[1], with_meta=False)):
+                    ctx.violation('but-fresh', {'input': text[:300], 'api': 'cast', 'type': str(new.data_type),
+                                                'new': repr(new)[:200], 'fresh': repr(fresh[1])[:200]}, feats)
+                    return
+                if new.metadata is target.metadata or new.metadata != target.metadata:
+                    ctx.violation('but-metadata', {'input': text[:300], 'api': 'cast',
+                                                   'shared': new.metadata is target.metadata}, feats)
+                    return
             if o[0] == 'ok' and hasattr(type(o[1]), '__attrs_attrs__'):
                 prev = o[1]
                 pub.add(prev, 'result-of-' + name)
@@ -339,6 +356,11 @@ def run(ctx):
         if (getattr(root, 'is_expression', False) or getattr(root, 'is_predicate', False)) and S.power_bomb(root):
             ctx.skip('power-too-large-to-fold')
             continue
+        if rng.random() < 0.3:
+            # user annotations on nodes of the handed-out tree (metadata is the one mutable, caller-owned slot)
+            for x in [root] + [gen.pick(rng, subtrees(root)) for _ in range(2)]:
+                if hasattr(type(x), '__attrs_attrs__') and isinstance(getattr(x, 'metadata', None), dict):
+                    x.metadata['note'] = f'n{n}'
         for _ in range(B['seqs']):
             run_sequence(root, abs_e, text, feats, schemas)
         if getattr(root, 'is_expression', False) or getattr(root, 'is_predicate', False) or (
